@@ -232,7 +232,7 @@ func abs(x int) int {
 	return x
 }
 
-var textClasses = []string{"plain text", "with \"double\" quotes", "semi;colon, and comma", "Ünïcödé Straße", "  leading blanks", "tab\there", "trailing backslash \\", "O'Brien & Sons #1 //x", "à la carte Å ø", "no\u00a0break\u00a0space", "tab\tand  double  blanks", "Caf\xe9 M\xfcller (Latin-1 bytes)"}
+var textClasses = []string{"plain text", "with \"double\" quotes", "semi;colon, and comma", "Ünïcödé Straße", "  leading blanks", "tab\there", "trailing backslash \\", "O'Brien & Sons #1 //x", "à la carte Å ø", "no\u00a0break\u00a0space", "tab\tand  double  blanks", "Caf\xe9 M\xfcller (Latin-1 bytes)", "\"SPAR\" MARKT 12"}
 
 type impJob struct {
 	im     importerSpec
@@ -417,7 +417,7 @@ func observeImport(bin, root string, id int, jb impJob) map[string]any {
 
 func C13(c *core.Ctx) {
 	c.Ev.Level = "exploration"
-	c.Set("rule", "abstract statements (1-8 booking rows: dates, signs, amounts with two decimals up to 10^6, 1-3 currencies where the format allows, fees, running or closing balances where the format carries them, free text of 12 classes incl. double quotes, separators, Unicode, leading blanks, tabs, bytes that are not UTF-8 (a Latin-1 export); brokerage rows: transfers, interest, custody fees, dividends with and without withholding tax, purchases and sales of whole shares, currency conversions with a base-currency commission, cancelled transfers; price-only statements: 1-12 daily values with sub-cent digits, zeros and an optional --from) rendered by one format writer per importer (all 11: ch.postfinance, ch.supercard, ch.swisscard, ch.swisscard2, ch.cumulus, revolut, revolut2, ch.swissquote, us.interactivebrokers, com.wise, ch.viac); not generated: com.wise rows that pay out of a conversion (the importer emits two transactions for them by design); distinct by statement bytes; non-trivial = >= 2 rows / values")
+	c.Set("rule", "abstract statements (1-8 booking rows: dates, signs, amounts with two decimals up to 10^6, 1-3 currencies where the format allows, fees, running or closing balances where the format carries them, free text of 13 classes (one starting with a double quote) incl. double quotes, separators, Unicode, leading blanks, tabs, bytes that are not UTF-8 (a Latin-1 export); brokerage rows: transfers, interest, custody fees, dividends with and without withholding tax, purchases and sales of whole shares, currency conversions with a base-currency commission, cancelled transfers; price-only statements: 1-12 daily values with sub-cent digits, zeros and an optional --from) rendered by one format writer per importer (all 11: ch.postfinance, ch.supercard, ch.swisscard, ch.swisscard2, ch.cumulus, revolut, revolut2, ch.swissquote, us.interactivebrokers, com.wise, ch.viac); not generated: com.wise rows that pay out of a conversion (the importer emits two transactions for them by design); distinct by statement bytes; non-trivial = >= 2 rows / values")
 	c.Trusted("TLC + Json module", "the eleven statement writers (the only format-specific harness code)", "knut's parser/checker/printer as readers of the importer output (cross-checked against the abstract rows)")
 	c.MC("MC_Lifecycle", c.TierCfg("MC_Lifecycle"), 16, 40*time.Minute)
 	bin := c.Knut("")
